@@ -129,6 +129,10 @@ func NewTagScanner(tags map[string]map[string]string) *TagScanner {
 			return "", "", false
 		}
 		tv, ok := tags[n.Nm][field.StructField.Name]
+		// "tag|value" selects another component tag than wire (func, or a user-defined one)
+		if i := strings.Index(tv, "|"); ok && i > 0 {
+			return tv[:i], tv[i+1:], true
+		}
 		return "wire", tv, ok
 	}
 	return s
@@ -444,6 +448,14 @@ func (p *GraphProg) Tags() (tags map[string]map[string]string, slots [][]string)
 				t["M0"] = ""
 			case "type-opt":
 				t["M0"] = ",required=false"
+			case "func-req":
+				t["S5"] = "func|NoSuchMethod"
+			case "func-opt":
+				t["S5"] = "func|NoSuchMethod,required=false"
+			case "custom-req":
+				t["S5"] = "usertag|whatever"
+			case "custom-opt":
+				t["S5"] = "usertag|whatever,required=false"
 			}
 		}
 		if len(ql) > 0 {
@@ -635,3 +647,6 @@ func RunGraph(p *GraphProg, ch *envx.Chooser) *GraphObs {
 }
 
 var _ container.SmartInstantiationAwareBeanPostProcessor = (*Proc)(nil)
+
+// SetRT attaches a runtime (event log) to a stand-alone node.
+func SetRT(n *N, rt *RT) { n.rt = rt }
